@@ -1,5 +1,6 @@
 import TarpcModel.Client.Settle
 import TarpcModel.Server.Settle
+import TarpcModel.Lemmas.ServerExpire
 /-!
 # Helper lemmas for C02 (no wakeup is lost)
 
@@ -903,16 +904,18 @@ theorem cancelRequest_ck (s : St) (id : Nat) : CK s (cancelRequest s id).1 := by
   · exact CK.trans (CK.trans (b := { s with inflight := s.inflight.filter (·.id != id) }) ⟨rfl, rfl⟩ (abortExec_execsOnly _ _).ck) (removeTimer_ck _ _)
 
 theorem pollExpired_ck (s : St) (now : Nat) : CK s (pollExpired s now).1 := by
-  unfold pollExpired
-  split
-  · exact CK.refl s
-  · split
-    · simp only
-      split
-      · exact CK.trans ⟨rfl, rfl⟩ (abortExec_execsOnly _ _).ck
-      · exact ⟨rfl, rfl⟩
-    · exact ⟨rfl, rfl⟩
-    · exact ⟨rfl, rfl⟩
+  refine pollExpired_rel now CK.refl (fun _ _ _ => CK.trans) (fun s1 => ⟨rfl, rfl⟩) (fun s1 => ?_) s
+  have hs := expireStep_shape s1 now
+  revert hs; generalize expireStep s1 now = p; intro hs
+  obtain ⟨s', r⟩ := p
+  dsimp only at hs ⊢
+  cases hs with
+  | idleNone q hp => exact ⟨rfl, rfl⟩
+  | idlePending q hp => exact ⟨rfl, rfl⟩
+  | orphan q e hp hf => exact ⟨rfl, rfl⟩
+  | abort q e en hp hf h0 => exact CK.trans ⟨rfl, rfl⟩ (abortExec_execsOnly _ _).ck
+  | rearmed q e en s2 hp hf h0 hr => exact ⟨(rearm_frame hr).cancelQ, (rearm_frame hr).cancelRxWaker⟩
+  | panicked q e en hp hf h0 hr => exact ⟨rfl, rfl⟩
 
 theorem tNext_ck (s : St) : CK s (tNext s).1 := by
   unfold tNext
